@@ -57,6 +57,8 @@ def judge(rep, pa, units, spec, label, sample=True):
     cutv = I.cut
     gray = I.zfloor(TAU2 * max(1, cutv))
     tol = I.zfloor(TAU2 * max(1, cutv))
+    if label == "exact-tie":
+        gray = tol = 0       # every pair cost is an exactly representable dyadic number: the cut is decided exactly, ties included
     line = [1] + I.wire() + [gray, tol] + w_list(lib, lambda p: w_tuple(p[0]) + [I.z(p[1])])
     return cont, dissim, I, lib, line
 
@@ -133,6 +135,19 @@ def run(rep, tier, seed, pa):
     for (l, o), c in zip(sample, coq):
         if o != c:
             rep.violation("extraction", {"line": l, "ocaml": o, "coq": c}, "extracted model and vm_compute disagree no-failing-input-found")
+    # combinations whose sum is EXACTLY the cut, in exact arithmetic on both sides (integer positions, costs that are small dyadic numbers):
+    # they must be listed ("at most n * delta_empty"), and there is no gray zone to hide in
+    ties = []
+    for k in (0, 3, 10):
+        for de in (1.0, 0.5, 2.0):
+            # two annotators, adjacent unit-length units of one category, alpha = 2: cost 2 * ((1 + 1) / 2)^2 * de = 2 de = the cut
+            ties.append(([[(float(k), float(k + 1), "A")], [(float(k + 1), float(k + 2), "A")]], ("comb", 2.0, 1.0, de, "abs", "abc", "asis"), "exact-tie", None))
+            ties.append(([[(float(k), float(k + 1), "A"), (float(k + 5), float(k + 6), "B")], [(float(k + 1), float(k + 2), "A")]],
+                         ("comb", 2.0, 1.0, de, "abs", "abc", "asis"), "exact-tie", None))
+        # three annotators, positional: pair costs 4, 4, 1 (x de): sum 9 de = C(3,2) * 3 * de = the cut
+        ties.append(([[(float(k), float(k + 1), "A")], [(float(k + 2), float(k + 3), "A")], [(float(k + 3), float(k + 6), "A")]], ("pos", 1.0), "exact-tie", None))
+        ties.append(([[(float(k), float(k + 1), "A")], [(float(k + 2), float(k + 3), "A")], [(float(k + 3), float(k + 6), "A")]], ("pos", 0.5), "exact-tie", None))
+    run_cases(rep, pa, ties)
     # buffer-growth boundaries
     big = []
     for sizes, far in boundary_shapes(tier):
